@@ -107,7 +107,8 @@ def check_pair(args):
         x0, y0 = rnd.choice([(0, 0), (0, 15.0), (-8.0, 3.0), (12.0, -20.0)])
         boundary = rnd.choice(['linear', 'circular'])
         radials = boundary == 'circular' and rnd.random() < 0.4
-        zen = Angle(rnd.choice([0, 5]), rnd.choice([10, 17]), rnd.choice([5, 6]))
+        zen = rnd.choice([Angle(rnd.choice([0, 5]), rnd.choice([10, 17]), rnd.choice([5, 6])),
+                          Angle(-80, 10, 8), Angle(-70, 12, 6), Angle(-60, 15, 9)])
         a0 = rnd.choice([0, 90, 240, -30])
         azi = Angle(a0, rnd.choice([15, 30]), rnd.choice([3, 5, 12]))
         probe = build(name, x0, y0, [ideal_ground])
